@@ -147,7 +147,7 @@ def guarded(env, allowed_roots, fn, cli=False, limit=180):
             o.result = fn()
     except CaseTimeout:
         o.timeout = True
-    except (KeyboardInterrupt, MemoryError, HarnessError):
+    except (KeyboardInterrupt, HarnessError):
         obs.disarm()
         raise
     except Exception as e:
